@@ -50,7 +50,7 @@ TB = [
     "XlsxWriter / the embedded workbook are not modelled (C08)",
 ]
 ASSUME = [
-    "c:f formula references and the workbook are outside the model (C08); escaping of number_format and of characters outside the XML Char production is C05's",
+    "c:f formula references and the workbook are outside the model (C08); characters outside the XML Char production are C05's",
     "numbers are finite ints below 2**53 in magnitude or finite floats; bool, Decimal, nan and inf values are not generated",
     "category labels are of one kind per chart (all str, all numbers or all dates); multi-level labels are str",
     "read API results on plots whose xChart tag python-pptx has no series class for (area3DChart) are compared as the error they raise",
@@ -692,6 +692,27 @@ def oracle_state(ck, ctx, data, root, reads, d1904, pie_write, baseline_xsd):
             y = cols[0][1] if fam == "cat" else cols[1][1]
             if vals_api[i] != [0, want_vals(y)]:
                 problems.append(("values", "series %d .values reports %r, supplied %r" % (i, vals_api[i][1][:8] if vals_api[i][0] == 0 else vals_api[i], want_vals(y)[:8])))
+    # number formats kept as given
+    def fmt_of(el):
+        fc = el.xpath(".//c:formatCode", namespaces=NSMAP) if el is not None else []
+        return (fc[0].text or "") if fc else None
+
+    for i, ((xc, s), w) in enumerate(zip(sers, want)):
+        wantf = data["nf"] if w[1] is None else w[1]
+        for tag in (("val",) if fam == "cat" else ("xVal", "yVal", "bubbleSize")):
+            got = fmt_of(s.find(C + tag))
+            if s.find(C + tag) is not None and got != wantf:
+                if got == norm_cr(wantf):
+                    quirks.add("cr-in-string-becomes-lf")
+                else:
+                    problems.append(("number-format", "series %d c:%s formatCode %r, supplied %r" % (i, tag, got, wantf)))
+        if fam == "cat" and data["cats"] and data["cats"][0][0][0] != "s" and not data["cats"][0][1]:
+            wantc = data.get("fmt")
+            if wantc is None:
+                wantc = "yyyy\\-mm\\-dd" if data["cats"][0][0][0] in ("d", "t") else "General"
+            got = fmt_of(s.find(C + "cat"))
+            if got != wantc and got != norm_cr(wantc):
+                problems.append(("number-format", "series %d c:cat formatCode %r, supplied %r" % (i, got, wantc)))
     # idx / order unique
     idxs = [int(s.find(C + "idx").get("val")) for _x, s in sers]
     orders = [int(s.find(C + "order").get("val")) for _x, s in sers]
@@ -838,7 +859,8 @@ def oracle_replace(before, after, n_new):
 # ------------------------------------------------------------------ generators
 STRS = ["a", "Q1 2020", "East & West", "<b>", 'say "hi"', "it's", " lead", "trail ", "tab\there", "two\nlines",
         "été", "日本", "\U0001F600", "x" * 40, "0", "None", " ", "1.5", "]]>", "&amp;", "A/B", "100%"]
-FMTS = ["General", "0.00", "#,##0", "0.0%", "yyyy\\-mm\\-dd", "mm/dd/yyyy", '"$"#,##0.00', "[Red]0.0;[Blue]-0.0", "0.0E+00"]
+FMTS = ["General", "0.00", "#,##0", "0.0%", "yyyy\\-mm\\-dd", "mm/dd/yyyy", '"$"#,##0.00', "[Red]0.0;[Blue]-0.0", "0.0E+00",
+        "[<100]0;[>=100]0.0", '#,##0 "R&D"', '0.0 "<"', "d\" days\"", "&amp;0"]
 DATES = [(1900, 1, 1), (1900, 2, 27), (1900, 2, 28), (1900, 3, 1), (1900, 3, 2), (1904, 1, 1), (1904, 1, 2), (1903, 12, 31),
          (1999, 12, 31), (2000, 2, 29), (2024, 2, 29), (2026, 9, 29), (9999, 12, 31), (1899, 12, 31), (1899, 12, 30), (1600, 3, 1)]
 NUMS = [0, 1, -1, 2, 3.5, -2.25, 0.1, 1e-07, 1.0, 100, 12345678901, 1e+20, 0.30000000000000004, 2 ** 52 + 1, -0.0, 5e-324, 1.7976931348623157e+308]
@@ -895,7 +917,7 @@ def g_cat_data(rng, shape):
             ds.sort()
         cats = [[(["d"] + list(d)) if rng.random() < 0.7 else (["t"] + list(d) + [rng.randint(0, 23), rng.randint(0, 59), rng.randint(0, 59)]), []] for d in ds]
         if rng.random() < 0.5:
-            fmt = rng.choice([x for x in FMTS if '"' not in x])
+            fmt = rng.choice(FMTS)
     nleaf = count_leaves(cats)
     nser = shape.get("nser", rng.randint(1, 4))
     sers = []
@@ -1228,7 +1250,7 @@ def replay(rec):
 
 CLAIM = {
     "tech": "Coq proof over a Gallina model of the chart writers, the readers and replace_data as a state machine (all chart data, all category forests, all replace_data histories, arbitrary successor declarations) + extracted-model correspondence on real charts of every writable type and of the .pptx corpus + independent oracle on the XML and the read API incl. XSD validation",
-    "text": "23 theorems and 4 examples closed under the global context: series names, values (None positions, empty series), X values and bubble sizes read back as supplied; categories read back at every level, flattened_labels = root-to-leaf paths for ragged forests of any depth (level idx = first-leaf offset), numbers as Python's text, dates as the Excel serial (1900 leap-year quirk and 1904 system); c:idx / c:order unique after any sequence of replace_data (fold over operations); replace_data reports the new names, values and categories, keeps idx, order and every non-data child of surviving series, the date system and everything outside the xChart elements, removes exactly the last series of plotArea.sers and exactly the plots left without any. Where the model refutes the statement the witness is proved and replayed: pie writer keeps one series, carriage return becomes line feed, replace_data fails on charts without series or without plots, a double quote in a date number format breaks the date axis. The model is tied to chart/xmlwriter.py, data.py, category.py, series.py, plot.py and oxml/chart by ~700 (quick) / ~8300 (thorough) histories on all 29 chart types (list read off ChartXmlWriter) and the 95 corpus charts, comparing the skeleton re-read from ChartPart.blob and the read API state by state.",
-    "note": "numbers travel as the text str() gives and are compared as exact rationals of float(text); c:f references and the workbook are C08's, escaping of number formats and non-XML characters C05's; validity is judged by libxml2 on dml-chart.xsd after resolving mc:AlternateContent; formatting children and everything outside c:ser are opaque content hashes.",
+    "text": "24 theorems and 6 examples closed under the global context: series names, values (None positions, empty series), X values and bubble sizes read back as supplied; categories read back at every level, flattened_labels = root-to-leaf paths for ragged forests of any depth (level idx = first-leaf offset), numbers as Python's text, dates as the Excel serial (1900 leap-year quirk and 1904 system); c:idx / c:order unique after any sequence of replace_data (fold over operations); replace_data reports the new names, values and categories, keeps idx, order and every non-data child of surviving series, the date system and everything outside the xChart elements, removes exactly the last series of plotArea.sers and exactly the plots left without any. number formats are kept as given and never make a writer fail. Where the model refutes the statement the witness is proved and replayed: pie writer keeps one series, carriage return becomes line feed, replace_data fails on charts without series or without plots (two earlier refutations, empty label read as 'None' and a double quote in a date number format, were fixed in python-pptx and are now regression examples). The model is tied to chart/xmlwriter.py, data.py, category.py, series.py, plot.py and oxml/chart by ~700 (quick) / ~8300 (thorough) histories on all 29 chart types (list read off ChartXmlWriter) and the 95 corpus charts, comparing the skeleton re-read from ChartPart.blob and the read API state by state.",
+    "note": "numbers travel as the text str() gives and are compared as exact rationals of float(text); c:f references and the workbook are C08's, non-XML characters C05's; validity is judged by libxml2 on dml-chart.xsd after resolving mc:AlternateContent; formatting children and everything outside c:ser are opaque content hashes.",
     "ref": "6/C07",
 }
